@@ -267,7 +267,7 @@ func ruleL4(c *Ctx, rels ...string) {
 				return
 			}
 			n++
-			key := funcName(fn) + " calls " + what
+			key := funcName(c.attributionRoot(fn)) + " calls " + what
 			if why, ok := l4Allowed[key]; ok {
 				c.ok(key, in.Pos(), "allow-listed: %s", why)
 			} else {
